@@ -15,6 +15,7 @@
  * case language (the same lines drive `nvdrive C13 model`):
  *   port telnet|ascii|binary|console     create the connection (first line of a case)
  *   iflag single                         set SINGLE_CHAR (a get_char() is pending)
+ *   iflag line                           clear SINGLE_CHAR
  *   send <hex>                           the client sends these bytes (socket queue), no read event
  *   read                                 one read event: get_user_data()
  *   chunk <hex>                          send + read
@@ -414,12 +415,20 @@ static int c13_cmd (char *line)
       return 1;
     }
   if (!alive ())		/* connection closed earlier: nothing is executed any more */
-    return !strcmp (line, "iflag single") || !strcmp (line, "read") || !strncmp (line, "chunk ", 6)
+    return !strcmp (line, "iflag single") || !strcmp (line, "iflag line") || !strcmp (line, "read") || !strncmp (line, "chunk ", 6)
       || !strcmp (line, "extract") || !strcmp (line, "drain") || !strcmp (line, "finish") || !strncmp (line, "line ", 5);
   if (!strcmp (line, "iflag single"))
     {
       if (alive ())
         c13_ip->iflags |= SINGLE_CHAR;
+      after_step ();
+      return 1;
+    }
+  if (!strcmp (line, "iflag line"))
+    {
+      /* back to line mode, as process_user_command() does when a get_char() callback asks for a line */
+      if (alive ())
+        c13_ip->iflags &= ~SINGLE_CHAR;
       after_step ();
       return 1;
     }
@@ -442,8 +451,13 @@ static int c13_cmd (char *line)
   if (!strcmp (line, "drain"))
     {
       int guard = 0;
-      while (do_extract () && ++guard < 5000)
-        ;
+      while (do_extract ())
+        if (++guard >= 1100)
+          {
+            /* more commands than the buffer can hold: the extraction does not make progress */
+            vh_out ("crash livelock: drain returned %d commands", guard);
+            _exit (0);
+          }
       return 1;
     }
   if (!strcmp (line, "finish"))
@@ -453,8 +467,12 @@ static int c13_cmd (char *line)
         {
           do_read ();
           int g2 = 0;
-          while (do_extract () && ++g2 < 5000)
-            ;
+          while (do_extract ())
+            if (++g2 >= 1100)
+              {
+                vh_out ("crash livelock: drain returned %d commands", g2);
+                _exit (0);
+              }
         }
       return 1;
     }
